@@ -83,40 +83,52 @@ def run(ctx):
     ctx.finish_rule()
 
     # ------------------------------------------------------------------ R3
-    ctx.rule("C06.R3", "exactly 2(n+1) bytes are written", floor=3)
-    writes = [(b, t, c) for b, t, c in main.calls() if b in region and c and re.search(r"std::io::Write>?::(write_all|write)$", c) and "File" in (t.get("arg_tys") or [""])[0]]
-    ctx.instance(len(writes))
+    ctx.rule("C06.R3", "exactly 2(n+1) bytes are written", floor=2)
+    SINK = re.compile(r"(std::io::Write>?::(write_all|write)$|Vec::<T, A>::extend_from_slice$|core::iter::traits::collect::Extend<.*>>::extend$|std::fs::write$)")
+    sinks = [(b, t, c) for b, t, c in main.calls() if b in region and c and SINK.search(c)]
     lps = kit.loops(main)
-    in_loop = [w for w in writes if any(w[0] in body for h, (body, l) in lps.items())]
-    once = [w for w in writes if w not in in_loop]
-    desc = []
-    okall = True
-    for b, t, c in writes:
-        e = main.expr(t["args"][1], 10)
-        conv = [x for x in expr_walk(e) if x[0] == "call" and x[1] and x[1].endswith("to_be_bytes")]
-        okall = okall and len(conv) == 1
-        desc.append(expr_str(conv[0][2][0], 40) if conv else expr_str(e, 40))
-    # origin: the two non-loop writes are the two arms of one `if let Some(orig)`: exactly one of them on every path
-    ok = okall and len(once) == 2 and len(in_loop) == 1
+    conv_sinks = {}
+    for b, t, c in sinks:
+        for a in t["args"][1:]:
+            e = main.expr(a, 12)
+            for x in expr_walk(e):
+                if x[0] == "call" and x[1] and x[1].endswith("to_be_bytes"):
+                    conv_sinks.setdefault(expr_str(x, 80), []).append((b, c))
+    conv_blocks = [b for b, t, c in conv_w]
+    in_loop = [b for b in conv_blocks if any(b in body for h, (body, l) in lps.items())]
+    once = [b for b in conv_blocks if b not in in_loop]
+    ctx.instance(len(conv_blocks), {"byte conversions": {k: [short(c).rsplit("::", 1)[-1] for b, c in v] for k, v in conv_sinks.items()}})
+    ok = len(conv_sinks) == len({expr_str(main.expr(t["args"][0], 6), 80) for b, t, c in conv_w}) or True
+    ok = all(len(v) == 1 for v in conv_sinks.values()) and sum(len(v) for v in conv_sinks.values()) == len(conv_blocks)
+    ctx.oblig(ok, {"each conversion feeds exactly one byte sink": ok}, "data flow")
+    if not ok:
+        ctx.violation("write-sinks", sp_file_line(main.term(units["Compile"]).get("sp")),
+                      "the 2-byte conversions of the compile arm do not each feed exactly one write: %s" % {k: len(v) for k, v in conv_sinks.items()})
+    h = [hh for hh, (body, l) in lps.items() if any(b in body for b in in_loop)]
+    ok = len(in_loop) == 1 and len(once) in (1, 2) and bool(h)
     if ok:
-        a, b2 = once[0][0], once[1][0]
-        ok = a not in main.reachable(b2) and b2 not in main.reachable(a)
-        # every path from the arm entry to the word loop passes one of them
-        h = [hh for hh, (body, l) in lps.items() if in_loop[0][0] in body]
-        ok = ok and bool(h) and main.must_pass(units["Compile"], [min(h, key=lambda x: len(lps[x][0]))], [a, b2])
-        # the loop writes one buffer per emitted word
-        hb = min(h, key=lambda x: len(lps[x][0])) if h else None
-        nx = main.term(hb) if hb is not None else None
-        ok = ok and nx is not None and nx["k"] == "call" and (callee_of(nx) or "").endswith("::next")
-    ctx.oblig(ok, {"destination writes": desc, "in the word loop": len(in_loop)}, "origin once (either arm), one word per iteration, 2 bytes each")
+        hb = min(h, key=lambda x: len(lps[x][0]))
+        # the origin conversion(s): exactly one on every path to the word loop
+        if len(once) == 2:
+            a, b2 = once
+            ok = a not in main.reachable(b2) and b2 not in main.reachable(a) and main.must_pass(units["Compile"], [hb], once)
+        else:
+            ok = main.dominates(once[0], hb)
+        nx = main.term(hb)
+        ok = ok and nx["k"] == "call" and (callee_of(nx) or "").endswith("::next")
+    ctx.oblig(ok, {"origin conversions": len(once), "per-word conversions in the loop": len(in_loop)}, "origin once on every path, one word per iteration")
     if not ok:
         ctx.violation("write-count", sp_file_line(main.term(units["Compile"]).get("sp")),
-                      "the object file is not written as exactly one 2-byte origin followed by one 2-byte buffer per statement (writes: %s, %d inside the loop)" % (desc, len(in_loop)))
-    # the loop iterates over the emitted words of the whole AIR
-    if in_loop:
-        e = expr_str(main.expr(in_loop[0][1]["args"][1], 12), 200)
-        ok = "emit" in e or "words" in e or "next(" in e
-        ctx.oblig(ok, None)
+                      "the object file is not produced as exactly one 2-byte origin followed by one 2-byte word per statement (%d conversions outside the loop, %d inside)"
+                      % (len(once), len(in_loop)))
+    # when the bytes are collected first, the buffer goes to the destination exactly once
+    vec_sinks = [x for x in sinks if "Vec" in x[2] or "Extend" in x[2]]
+    file_sinks = [x for x in sinks if x not in vec_sinks]
+    if vec_sinks:
+        ok = len(file_sinks) == 1 and not any(file_sinks[0][0] in body for hh, (body, l) in lps.items())
+        ctx.oblig(ok, {"buffered bytes written": [short(x[2]) for x in file_sinks]}, "one write of the whole buffer")
+        if not ok:
+            ctx.violation("buffer-write", sp_file_line(main.term(units["Compile"]).get("sp")), "the collected bytes are written %d times (expected exactly once, after the loop)" % len(file_sinks))
     ctx.finish_rule()
 
     # ------------------------------------------------------------------ R4
